@@ -822,6 +822,39 @@ func genSign(r *Runner, prop string) {
 			add("ext-spec-key-twin:"+tw, "", func(s *signSpec) { s.ext = []attrSpec{{tw, false, "2030-01-01T00:00:00Z"}} })
 		}
 	}
+	// the same twins carrying a value the header they fold into would accept (a decoder that lets the twin through puts that
+	// value into the header: with a time the chain does not cover the request would fail all the same, for another reason)
+	for _, base := range []string{"alg", "cty", "crit", "io.cncf.notary.expiry", "io.cncf.notary.signingTime", "io.cncf.notary.signingScheme", "io.cncf.notary.authenticSigningTime"} {
+		base := base
+		for _, tw := range foldTwins(base) {
+			tw := tw
+			add("ext-spec-key-twin-valid-value:"+tw, "", func(s *signSpec) {
+				var v any
+				switch base {
+				case "alg":
+					v = "ES256"
+				case "cty":
+					v = s.cty
+				case "crit":
+					v = []any{"io.cncf.notary.signingScheme"}
+				case "io.cncf.notary.expiry":
+					v = s.st.Add(24 * time.Hour).UTC().Format(time.RFC3339)
+				case "io.cncf.notary.signingScheme":
+					v = string(s.scheme)
+				default:
+					// the time header of the request's own scheme takes the request's time a minute earlier; the other scheme's
+					// header name is tried with the scheme that owns it
+					v = s.st.Add(-time.Minute).UTC().Format(time.RFC3339)
+					if base == "io.cncf.notary.authenticSigningTime" {
+						s.scheme = signature.SigningSchemeX509SigningAuthority
+					} else {
+						s.scheme = signature.SigningSchemeX509
+					}
+				}
+				s.ext = []attrSpec{{tw, false, v}}
+			})
+		}
+	}
 	for _, n := range reservedLookingNames {
 		n := n
 		add("ext-reserved-looking-name:"+n, "", func(s *signSpec) { s.ext = []attrSpec{{n, true, "signed value"}} })
